@@ -1,7 +1,7 @@
 import SaModel.Props.C01Obs
 import SaModel.Lemmas.C03TypeNew
 /-
-C03, the type-equality half (round c03f).  `Spec.WF f a = Spec.WFS f a ∧ Spec.typeOf a = f.dataType`, where `typeOf` is
+C03, the type-equality half.  `Spec.WF f a = Spec.WFS f a ∧ Spec.typeOf a = f.dataType`, where `typeOf` is
 marrow's `Array::data_type` written over the physical array alone (Spec/WF.lean).  The headline `Props.C01.C03_wf'`
 (Props/C01Obs.lean) concludes this `WF`; here are its two ingredients at property level and the witnesses of the three
 places where the pinned crate returned an array of ANOTHER type than the field's:
